@@ -172,15 +172,27 @@ def spec_decode_stmt(dev, pc, op, b1, b2):
 # documented concrete syntax (tokens; Spec.Asm.tokens / parseOperand / parse)
 # ---------------------------------------------------------------------------------------
 
+# white space between tokens: what str.split() / \s accept in ASCII (Spec.Asm.isBlank)
+SPEC_BLANKS = ' \t\n\x0b\x0c\r\x1c\x1d\x1e\x1f'
+
+
 def spec_tokens(text):
+    """Spec.Asm.tokens: `( ) ,` are tokens, white space separates and is dropped, maximal runs of other
+    characters are words; the character after `#'` / `#"` at the start of a word belongs to the word
+    whatever it is, white space excepted (a character literal is one token)."""
     toks, cur = [], ''
     for ch in text:
-        if ch in ' \t' or ch in '(),':
+        if ch in SPEC_BLANKS:
             if cur:
                 toks.append(cur)
                 cur = ''
-            if ch in '(),':
-                toks.append(ch)
+        elif cur in ("#'", '#"'):
+            cur += ch
+        elif ch in '(),':
+            if cur:
+                toks.append(cur)
+                cur = ''
+            toks.append(ch)
         else:
             cur += ch
     if cur:
@@ -192,12 +204,37 @@ def _is_word(t):
     return t not in ('(', ')', ',')
 
 
+def spec_charlit(word):
+    """Spec.Asm.charLit: the character a character-literal operand word denotes ('c', "c", closing quote
+    optional), else None."""
+    if len(word) >= 2 and word[0] in ('"', "'") and word[2:] in ('', word[0]):
+        return word[1]
+    return None
+
+
+def spp_line(text):
+    return 'spp %s' % tohex(text)
+
+
+def spec_parse_str(text):
+    """spec_parse in the canonical form of the driver's `spp` reply."""
+    p = spec_parse(text)
+    if p is None:
+        return 'none'
+    return 'some %s %s %s' % (tohex(p[0]), p[1], tohex(p[2]))
+
+
+def ascii_upper(s):
+    """Spec.Asm.upperS: ASCII letters only (str.upper() would also map e.g. U+017F to S)."""
+    return ''.join(chr(ord(c) - 32) if 'a' <= c <= 'z' else c for c in s)
+
+
 def spec_parse(text):
     """(MNEMONIC, shape, operand word) or None: the statement the token sequence denotes."""
     toks = spec_tokens(text)
     if not toks or not _is_word(toks[0]):
         return None
-    m, rest = toks[0].upper(), toks[1:]
+    m, rest = ascii_upper(toks[0]), toks[1:]
     words = [_is_word(t) for t in rest]
     if rest == []:
         return m, 'none', ''
